@@ -4,8 +4,8 @@ from gen_util import *
 from srp_cases import *
 import pyref, struct
 
-MODULES = ["WowSrp.Props.C15"]
-THEOREMS = ["C15_salt", "C15_login_challenge", "C15_reconnect_refresh", "C15_client_challenge", "C15_seed", "C15_private_key_value", "C15_server_private_key", "C15_client_private_key", "C15_uniform_constants", "C15_digits_exact", "C15_digits"]
+MODULES = ["WowSrp.Props.C15", "WowSrp.Props.C15Rng"]
+THEOREMS = ["C15_salt", "C15_login_challenge", "C15_reconnect_refresh", "C15_client_challenge", "C15_seed", "C15_private_key_value", "C15_server_private_key", "C15_client_private_key", "C15_uniform_constants", "C15_digits_exact", "C15_digits", "C15_rng_constants", "C15_convenience_generators", "C15_pin_grid_seed_differs", "C15_generators_sequential"]
 RULE = ("every documented call site with injected draws: the bytes consumed (count checked via the ~n suffix) and the value produced must be the "
         "documented injective function of exactly those bytes (identity for salts/challenges/seeds, g^(LE of all 32 bytes) for private keys, accepted "
         "samples for card digits), compared with an independent computation; single-byte changes of a draw at every position change the output; "
@@ -70,7 +70,10 @@ def generate(rng, tier):
         def exp(out, site=site, width=width, ns=ns):
             f = dict(t.split("=") for t in out.split(" ") if "=" in t)
             if int(f.get("n", 0)) != ns or int(f.get("width", 0)) != width: return "unexpected shape: " + out
-            if int(f["distinct"]) != ns: return "a drawn value repeated within %d draws" % ns
+            # 32-bit seeds: a birthday collision among n draws has probability about n^2 / 2^33 (0.05% for 2 000,
+            # 1.2% for 10 000), so one or two repeats are not evidence of anything; wider values must never repeat
+            allowed = 2 if width <= 4 else 0
+            if ns - int(f["distinct"]) > allowed: return "drawn values repeated within %d draws (%s distinct)" % (ns, f["distinct"])
             if site == "mcdigits":
                 return None if int(f["min_values_per_byte"]) == 10 and int(f["max_byte"]) == 9 else "card digits do not cover exactly 0..9"
             # B and A are values mod N: the top byte is < 0x8A, all others vary over (nearly) the full range
